@@ -280,7 +280,7 @@ impl Property for C10 {
     fn budget(&self, tier: Tier) -> Budget {
         match tier {
             Tier::Quick => Budget { cases: 30000, min_len: 8, max_len: 260 },
-            Tier::Thorough => Budget { cases: 1500000, min_len: 8, max_len: 320 },
+            Tier::Thorough => Budget { cases: 1000000, min_len: 8, max_len: 320 },
         }
     }
 
